@@ -865,3 +865,13 @@ V("point distance with the bracket [p, q, I] taken twice", "C09", OPERATORS, "  
 V("point distance normalised by [p, I, J] only", "C09", OPERATORS, "        return 4 * np.abs(np.sqrt(pqi * pqj) / (pij * qij))", "        return 4 * np.abs(np.sqrt(pqi * pqj) / (pij * pij))", "E19.dist", "_point_dist")
 V("twin: point distance with the magnitude of numerator and denominator taken separately", "C09", OPERATORS, "        return 4 * np.abs(np.sqrt(pqi * pqj) / (pij * qij))",
   "        return 4 * np.abs(np.sqrt(pqj * pqi)) / np.abs(qij * pij)", "silent")
+
+
+# ------------------------------------------------------------------------------------------------ join and meet of 1-tensors (E19.join)
+_JM_OLD = "        result = TensorDiagram(*[(o, e) if covariant else (e, o) for o in args]).calculate()"
+V("join/meet contracts the first argument with every index of the epsilon tensor", "C01", "geometer/point.py", _JM_OLD,
+  "        result = TensorDiagram(*[(o.copy(), e) if covariant else (e, o.copy()) for o in [args[0]] * len(args)]).calculate()", "E19.join", "_join_meet_duality")
+V("join/meet leaves the last argument out", "C01", "geometer/point.py", _JM_OLD,
+  "        result = TensorDiagram(*[(o, e) if covariant else (e, o) for o in args[:-1]]).calculate()", "E19.join", "_join_meet_duality", quick=True)
+V("twin: join/meet contracts the arguments in reverse order", "C01", "geometer/point.py", _JM_OLD,
+  "        result = TensorDiagram(*[(o, e) if covariant else (e, o) for o in reversed(args)]).calculate()", "silent")
